@@ -36,6 +36,9 @@ STAGE_BIT = {0: 1, 1: 2, 2: 4}
 OPTS = {'derive_encase_host_shareable': True}       # S1 ends in a runtime-sized array
 
 
+NOUSE = '<no use site>'
+
+
 class Slot:
     def __init__(self, sid, kind, owner, ctxname):
         self.id, self.kind, self.owner, self.ctx = sid, kind, owner, ctxname
@@ -79,6 +82,8 @@ class Template:
 
     # ---- rendering ------------------------------------------------------------------------------
     def r_use(self, s, form=0):
+        if s.value == NOUSE:
+            return ''                      # this function mentions no global at all (a pure wrapper)
         if s.value is None:
             return f'd{s.id} = 1u;'
         forms = dict((g[0], g[2]) for g in GLOBALS)[s.value]
@@ -88,15 +93,27 @@ class Template:
         return f'{s.value or s.marker()}();'
 
     def r_callr(self, s):
+        if s.value == NOUSE:
+            return ''                      # no value-returning call in this function (only legal in a void helper)
         return f'let r{s.id} = {s.value or s.marker()}();'
 
     def render(self, stages=None, form=0):
-        out = [PRELUDE]
-        for g in GLOBALS:
+        out = [PRELUDE, 'var<workgroup> wg_first: u32;']
+        # module-scope variables that are NOT bindings (private markers, a workgroup variable) sit before, between and after the
+        # bindings: nothing may rely on bindings being a prefix of the variable list
+        uses = [s for s in self.slots if s.kind == 'use']
+        for s in uses[0::3]:
+            out.append(f'var<private> d{s.id}: u32;')
+        for k, g in enumerate(GLOBALS):
             out.append(g[1])
+            if k == 1:
+                for s in uses[1::3]:
+                    out.append(f'var<private> d{s.id}: u32;')
+        for s in uses[2::3]:
+            out.append(f'var<private> d{s.id}: u32;')
         for s in self.slots:
             if s.kind == 'use':
-                out.append(f'var<private> d{s.id}: u32;')
+                pass
             elif s.kind == 'callv':
                 out.append(f'fn m{s.id}() {{}}')
             else:
@@ -211,6 +228,8 @@ def reference(tpl, info):
         if s.term is not None:
             return s.term == handle
         cur = s.value or s.marker()
+        if cur == NOUSE:
+            return B(False)
         h = (gl_h if s.kind == 'use' else fn_h)[cur]
         return B(h == handle)
     uses = {}
@@ -369,6 +388,7 @@ def run(ctx):
     sequences(ctx, nh, ne, seen)
     multi_use(ctx, seen)
     three_entries(ctx, seen)
+    wrappers(ctx, seen)
     contexts(ctx, nh, ne, seen, plans)
     # value-returning calls inside expressions + symbolic entry stages
     tpl = Template(nh, [1, 2, 0][:ne], CONTEXTS)
@@ -606,6 +626,31 @@ def multi_use(ctx, seen):
             ctx.report(key, f'stage sets {vis} differ from static use {exp} when {sym_fn} references {[choice[(sym_fn, i)] for i in range(len(choice))]}',
                        {'wgsl': wsrc, 'options': OPTS}, rep, {'real': vis, 'expected': exp})
         ctx.vacuity_witness('multi-use stage map reachable', res[0][0])
+
+
+def wrappers(ctx, seen):
+    """a helper that mentions NO global and only calls another void helper (a pure wrapper), reached from one entry point while an
+    entry point of another stage does not use the resource: the walk must go through functions that look like leaves"""
+    for kind in ('v', 'r'):
+        tpl = Template(2, [1, 2], ['plain', 'if_accept'])
+        hs = [f for f in tpl.funcs if f['kind'] == kind]
+        low, top = hs[0], hs[-1]
+        top['slots']['use'].value = NOUSE
+        top['slots']['callv'].value = [f for f in tpl.funcs if f['kind'] == 'v'][0]['name']        # wrapper -> low void helper
+        if kind == 'v':
+            top['slots']['callr'].value = NOUSE          # no CallResult expression either: the wrapper has no expression naming a global or a call result
+        if kind == 'r':
+            top['slots']['callv'].value = None
+            top['slots']['callr'].value = low['name']                                               # value wrapper -> low value helper
+        tpl.entries[1]['slots']['use'].value = 'u0'
+        e0 = tpl.entries[0]
+        sym = [e0['ctx']['plain'], e0['ctx']['if_accept'], e0['slots']['callr'],
+               [f for f in tpl.funcs if f['kind'] == 'v'][0]['slots']['use'], [f for f in tpl.funcs if f['kind'] == 'r'][0]['slots']['use']]
+        module, info = build(ctx, tpl, sym, [])
+        label = f'global_shader_stages/pure-wrapper-{kind}'
+        res = ctx.explore(label, lambda it: it.call('global_shader_stages', [mkref(module)]), assume=info['assume'],
+                          anchors=['global_shader_stages', 'update_stages', 'update_stages_blocks'])
+        check_stage_map(ctx, label, tpl, info, res, seen)
 
 
 def replay_mask(ctx, b):
